@@ -492,4 +492,58 @@ def isPark (k : JKind) : Pc → Bool
   | .ready => k == .flush
   | _ => false
 
+
+/-! ### the code steps the model's atomic steps stand for
+
+These lists are what `lvh extract` must regenerate from /repo's source (Generated/C02.lean); the
+tie theorems in Props/C02.lean compare them, so a re-ordered or re-locked function breaks a named
+obligation. -/
+namespace Code
+
+/-- `version.Release`: `snapDec` is the `Dec`, `snapRemove` the guarded `removeVersion` — two steps -/
+def release : List String := ["newVal:=ref.Dec", "if(dec-zero)", "fv.removeVersion", "endif"]
+def retain : List String := ["ref.Inc"]
+/-- `familyVersion.removeVersion` (`removeVersion` of the model; `recheck` = the guard includes ref == 0) -/
+def removeVersion (recheck : Bool) : List String :=
+  ["mutex.Lock", if recheck then "if(ne-current,ref-zero)" else "if(ne-current)", "delete:fv.activeVersions",
+   "endif", "mutex.Unlock"]
+/-- `familyVersion.appendVersion`: `jSwap` (the locked section), `jCheck`, `jPrevRm` -/
+def appendVersion : List String :=
+  ["previous=fv.current", "mutex.Lock", "fv.activeVersions[]=v", "fv.current=v", "mutex.Unlock",
+   "if(prev-non-nil,prev-ref-zero)", "v.GetFamilyVersion().removeVersion", "endif"]
+/-- `familyVersion.GetSnapshot` + `newSnapshot`: `snapAcquire` (one RLock section) -/
+def getSnapshot : List String := ["mutex.RLock", "defer:mutex.RUnlock", "return:newSnapshot"]
+def newSnapshot : List String := ["version.Retain"]
+/-- `snapshot.Close`: `snapDec`/`snapRemove`, then `snapRel` -/
+def snapshotClose : List String := ["closed.CompareAndSwap", "version.Release", "cache.ReleaseReaders"]
+/-- `CommitFamilyEditLog`: `jLock`, `jSnap`, `jSwap`…; the deferred Close and Unlock end it -/
+def commit : List String :=
+  ["mutex.Lock", "defer:mutex.Unlock", "vs.persistEditLogs", "familyVersion.GetSnapshot", "defer:snapshot.Close",
+   "snapshot.GetCurrent().Clone", "editLog.apply", "familyVersion.appendVersion"]
+def nextFileNumber : List String := ["mutex.Lock", "defer:mutex.Unlock", "nextFileNumber.Inc"]
+/-- `family.newTableBuilder`: `jAlloc` (number + pending mark) before `jCreate` (file) -/
+def newTableBuilder : List String := ["store.nextFileNumber", "f.addPendingOutput", "table.NewStoreBuilder"]
+/-- `family.deleteObsoleteFiles`: `doList`, `doPend`, `doActive`, `doRollup`, then `doEvict` before `doRemove` -/
+def deleteObsolete : List String :=
+  ["listDirFunc", "pendingOutputs.Range", "familyVersion.GetAllActiveFiles", "familyVersion.GetLiveRollupFiles",
+   "store.evictFamilyFile", "f.deleteSST"]
+def getAllActiveFiles : List String := ["mutex.RLock", "defer:mutex.RUnlock", "version.GetAllFiles"]
+def getLiveRollupFiles : List String := ["mutex.RLock", "defer:mutex.RUnlock", "return:current.GetRollupFiles"]
+/-- `backgroundCompactionJob`: snapshot first; Close then deleteObsoleteFiles are deferred -/
+def backgroundCompaction : List String :=
+  ["f.GetSnapshot", "defer{", "snapshot.Close", "f.deleteObsoleteFiles", "}", "snapshot.GetCurrent().PickL0Compaction",
+   "compactJob.Run"]
+/-- `storeFlusher.Commit`: the pending mark is removed (deferred) after `commitEditLog` -/
+def flushCommit : List String := ["defer{", "family.removePendingOutput", "}", "builder.Close", "family.commitEditLog"]
+/-- `mergeCompaction`: `cleanupCompaction` (pending marks) is deferred past `installCompactionResults` -/
+def mergeCompaction : List String := ["defer{", "c.cleanupCompaction", "}", "c.doMerge", "c.installCompactionResults"]
+def cacheEvict : List String := ["mutex.Lock", "defer:mutex.Unlock", "cache.Get", "c.evict", "cache.Remove"]
+def cacheRelease : List String := ["mutex.Lock", "defer:mutex.Unlock", "cache.Get", "entry.release"]
+def cacheGetReader : List String :=
+  ["mutex.Lock", "defer:mutex.Unlock", "cache.Get", "entry.retain", "newMMapStoreReaderFunc", "entry.retain", "cache.Add"]
+/-- `storeCache.Cleanup` closes only entries with `ref == 0` (and expired) -/
+def cacheCleanupGuard : List String := ["ref-zero", "expired"]
+
+end Code
+
 end LinVerif.VersionSet
